@@ -76,6 +76,8 @@ class SimFS:
         # pylint: disable=unused-argument
         self.stats['opens'] += 1
         path = os.fspath(path)
+        if isinstance(path, bytes):
+            path = os.fsdecode(path)
         fault = self.open_fault.get(path)
         if fault:
             self.stats['open_raised'] += 1
